@@ -330,7 +330,7 @@ func genLookupCase(rt *rapid.T) LookupCase {
 var c16 = &h.Campaign[LookupCase]{
 	Prop: "C16", Sub: "lookup",
 	Rule: "rapid + testing/synctest (virtual time, tie-free instants): AllowLookup on/off; service behaviour for the unknown name (answers after a delay, fails, hangs until the request context ends, hangs once then answers); 1-5 concurrent callers with start offsets, contexts (none, deadline, cancelled at T) and entry points (LookupSecret, NewUpdater, Fields.Apply, Secret); observed over 40 virtual minutes; non-trivial = lookups disabled (refusal path), or >= 2 callers with different context kinds against a slow or hanging service; distinct by scenario",
-	Quick: 3000, Thorough: 150000,
+	Quick: 3000, Thorough: 3000000,
 	Gen:   genLookupCase,
 	Run:   runC16,
 }
